@@ -381,3 +381,108 @@ def bytes_parts(fn_node: ast.AST, expr: ast.expr, _depth: int = 0) -> list[str] 
                     return None
         return parts
     return [ast.unparse(expr)]
+
+
+_POS_OP = {ast.NotEq: ast.Eq, ast.NotIn: ast.In, ast.IsNot: ast.Is, ast.GtE: ast.Lt, ast.Gt: ast.LtE}
+
+
+def cnf(expr: ast.expr, pol: bool = True, _budget: list | None = None) -> list[frozenset] | None:
+    """Conjunctive normal form of `expr is pol`: a list of clauses, each a frozenset of literals (atom text, polarity). Negations are pushed
+    inwards (De Morgan), `!=` / `not in` / `is not` / `>=` / `>` become the positive operator with flipped polarity, so that equivalent
+    spellings of one decision (inverted test with swapped branches, guard clause, De Morgan) give the same form. None: too large."""
+    from .model import canon_compare
+    budget = _budget if _budget is not None else [0]
+    budget[0] += 1
+    if budget[0] > 400:
+        return None
+    if isinstance(expr, ast.UnaryOp) and isinstance(expr.op, ast.Not):
+        return cnf(expr.operand, not pol, budget)
+    if isinstance(expr, ast.BoolOp):
+        subs = [cnf(v, pol, budget) for v in expr.values]
+        if any(s is None for s in subs):
+            return None
+        conj = isinstance(expr.op, ast.And) == pol
+        if conj:
+            return [c for s in subs for c in s]
+        out: list[frozenset] = [frozenset()]
+        for s in subs:
+            out = [a | b for a in out for b in s]
+            if len(out) > 64:
+                return None
+        return out
+    if isinstance(expr, ast.Compare) and len(expr.ops) == 1 and type(expr.ops[0]) in _POS_OP:
+        import copy
+        e2 = copy.deepcopy(expr)
+        e2.ops = [_POS_OP[type(expr.ops[0])]()]
+        canon_compare(e2)
+        return [frozenset({(ast.unparse(e2), not pol)})]
+    if isinstance(expr, ast.Constant) and isinstance(expr.value, bool):
+        return [] if expr.value == pol else [frozenset()]
+    return [frozenset({(ast.unparse(expr), pol)})]
+
+
+def norm_conds(conds) -> frozenset:
+    """Canonical set of (text, polarity) for a conjunction of (test text | ast, polarity) pairs: unit clauses as literals, a disjunctive clause as
+    one literal whose text is the sorted ` or `-joined literals (a false literal written `not (...)`)."""
+    out: set[tuple[str, bool]] = set()
+    for t, v in conds:
+        if isinstance(t, str):
+            if t.startswith("loop:"):
+                out.add((t, v))
+                continue
+            try:
+                e = ast.parse(t, mode="eval").body
+            except SyntaxError:
+                out.add((t, v))
+                continue
+        else:
+            e = t
+        cl = cnf(e, v)
+        if cl is None:
+            out.add((ast.unparse(e), v))
+            continue
+        for c in cl:
+            if len(c) == 1:
+                out.add(next(iter(c)))
+            else:
+                out.add((" or ".join(sorted(a if p else f"not ({a})" for a, p in c)), True))
+    return frozenset(out)
+
+
+def choice_table(fn_node: ast.AST, var: str, atoms: dict[str, list], oracle=None) -> dict[tuple, str | None]:
+    """Which expression is `var` (a local name or a dotted attribute) finally assigned from, per combination of the atom values: the
+    assignments `var = e` of the function are taken in position order, each under its path condition (enclosing ifs and guard clauses, decided
+    over the atoms); the last one whose condition holds wins. None: no assignment applies (the value the name had before).  Assignments inside
+    loops are not ordered by position and make the table undecidable (AnalysisError)."""
+    import itertools
+    from . import miniterp
+    from .model import AnalysisError
+    assigns = []
+    for n in ast.walk(fn_node):
+        if isinstance(n, (ast.FunctionDef, ast.AsyncFunctionDef, ast.Lambda)) and n is not fn_node:
+            continue
+        if isinstance(n, ast.Assign) and len(n.targets) == 1 and ast.unparse(n.targets[0]) == var:
+            assigns.append(n)
+        elif isinstance(n, ast.AnnAssign) and n.value is not None and ast.unparse(n.target) == var:
+            assigns.append(n)
+    assigns.sort(key=lambda n: (n.lineno, n.col_offset))
+    table: dict[tuple, str | None] = {}
+    keys = list(atoms)
+
+    def mentions(t: ast.expr) -> bool:
+        return any((isinstance(x, ast.Name) and x.id in atoms) or (isinstance(x, ast.Attribute) and ast.unparse(x) in atoms) for x in ast.walk(t))
+    conds = {id(a): [c for c in path_condition(fn_node, a) if mentions(c[0])] for a in assigns}
+    for combo in itertools.product(*(atoms[k] for k in keys)):
+        env = dict(zip(keys, combo))
+        chosen = None
+        for a in assigns:
+            if all(bool(miniterp.eval_expr(t, dict(env), oracle)) == pol for t, pol in conds[id(a)]):
+                chosen = ast.unparse(a.value)
+                # a later assignment reads the earlier value of an atom it overwrites: keep the environment in step for plain constants / atoms
+                if var in env:
+                    try:
+                        env[var] = miniterp.eval_expr(a.value, dict(env), oracle)
+                    except AnalysisError:
+                        env[var] = ("VALUE-OF", chosen)
+        table[tuple(repr(c) if isinstance(c, (dict, list, set)) else c for c in combo)] = chosen
+    return table
